@@ -68,6 +68,11 @@ var (
 			}
 			return ""
 		},
+		// HasPush tells a push action from no action: the state pushed to may be named "".
+		"HasPush": func(r lexer.Rule) bool {
+			_, ok := r.Action.(lexer.ActionPush)
+			return ok
+		},
 		"IsPop": func(r lexer.Rule) bool {
 			_, ok := r.Action.(lexer.ActionPop)
 			return ok
